@@ -26,7 +26,8 @@ for p in ids:
             "evidence_file": "evidence/%s.json" % p, "replay_cmd_template": "./check %s --replay {path}" % p, "engine": "verus-weave",
             "level_claimed": {"category": "proof", "text": c.get("level_text") or c["explanation"], "design_ref": c.get("design_ref", "DESIGN.md §5")},
             "level_note": c.get("level_note") or ("Not under contract / assumed: " + "; ".join(c.get("assumptions", []))),
-            "technique": c.get("technique", "contract-based deductive verification (Verus) of functions extracted verbatim from /repo")})
+            "technique": c.get("technique", "contract-based deductive verification (Verus) of functions extracted verbatim from /repo"
+                              + ("; functions outside the verifier's reach are covered by bounded stand-ins on the real crate (%s), labelled bounded and not counted as proved" % ", ".join(b["target"] for b in c["bounded"]) if c.get("bounded") else ""))})
     else:
         m["not_applicable"].append({"property_id": p, "reason": na.get(p, "not yet built (work in progress; DESIGN.md §5 names the planned unit)")})
 json.dump(m, open(os.path.join(root, 'MANIFEST.json'), 'w'), indent=1)
